@@ -187,6 +187,14 @@ func hookC19(cr *checkRun) {
 				Clause: "every instruction of " + fn.Name() + " is a deterministic function of its operands", Model: strings.Join(problems, "\n")})
 		}
 	}
+	// long-lived objects (the components and controllers, one instance per process) must not carry state that
+	// changes after construction: a memo or cache in one of their fields is process-local state like a package-level
+	// variable (the same scan protects the object invariants in the panic-freedom runs)
+	if bad, n := e.typeInvScan(); len(bad) > 0 {
+		cr.extraObl = append(cr.extraObl, &Obligation{Name: "components#immutable", Kind: "determinism", Status: "failed", Solver: "ssa-scan", Clause: "components and controllers hold no state that changes after construction", Model: strings.Join(bad, "\n")})
+	} else if n > 0 {
+		cr.extraObl = append(cr.extraObl, &Obligation{Name: "components#immutable", Kind: "determinism", Status: "discharged", Solver: "ssa-scan", Clause: fmt.Sprintf("%d component and controller types: allocated in their constructors only, no field stored and no field-held map updated elsewhere", n)})
+	}
 	// generated marshalling code is not scanned; the one thing in it that is order dependent is the wire
 	// order of map fields, so the message types with map fields are enumerated and must be query responses only
 	var mapMsgs, bad []string
